@@ -21,7 +21,7 @@ ASSUMPTIONS = ["arguments never alias, contain or point to each other (by constr
                "'naming' a non-UTF-8 argument = its backslash-escaped form appears on stderr"]
 
 ARGK = ["file", "file", "tree", "link_dangling", "link_file", "nonexistent", "dot", "raw", "badvol", "dup",
-        "goodvol", "goodvol"]
+        "goodvol", "goodvol", "emptyarg"]
 
 
 def examples(tier):
@@ -84,6 +84,8 @@ def build(case):
         elif k == "goodvol":
             p = "/good/w/" + nm
             nodes.append({"p": p, "t": "f", "c": "on the good volume"})
+        elif k == "emptyarg":
+            p = ""   # what a script passes for "$unset": names nothing
         elif k == "dot":
             p = case["dot"]
         if k in ("file", "tree", "link_dangling", "link_file") and first_ok is None:
